@@ -342,7 +342,8 @@ func fieldIndexByName(t reflect.Type, name string) []int {
 		}
 
 		if a := strings.SplitN(f.Tag.Get("json"), ",", 2); a[0] != "" {
-			if a[0] == "-" {
+			if a[0] == "-" && len(a) == 1 {
+				// `json:"-"` hides the field; `json:"-,"` names it "-" (encoding/json)
 				continue
 			}
 
